@@ -317,11 +317,19 @@ func C20(c *core.Ctx) {
 		uni := map[string][]string{"CHF": {"Cash"}}
 		classes := [][]string{{"Stocks", "Tech"}, {"Stocks", "Pharma"}, {"Bonds", "Gov"}}
 		spread := rng.Intn(2) == 0 // sibling classes both populated (Stocks:Tech and Stocks:Pharma)
-		for k, s := range secs {
-			if spread && k < 2 {
-				uni[s] = classes[k]
-			} else if rng.Intn(4) > 0 {
-				uni[s] = classes[(k+rng.Intn(2))%3]
+		switch rng.Intn(5) {
+		case 0: // every security in one class whose path has 1, 3 or 5 segments (several held members per class)
+			cls := [][]string{{"Alt"}, {"Equity", "Developed", "Tech"}, {"A", "B", "C", "D", "E"}}[rng.Intn(3)]
+			for _, s := range secs {
+				uni[s] = cls
+			}
+		default:
+			for k, s := range secs {
+				if spread && k < 2 {
+					uni[s] = classes[k]
+				} else if rng.Intn(4) > 0 {
+					uni[s] = classes[(k+rng.Intn(2))%3]
+				}
 			}
 		}
 		var rules []kj.Rule
